@@ -29,7 +29,8 @@ impl<'lifespan> PartialEq for ChemicalComposition<'lifespan> {
         if self.len() != other.len() {
             false
         } else {
-            self.iter().all(|(k, v)| other.get(k) == *v)
+            self.iter()
+                .all(|(k, v)| other.iter().any(|(k2, v2)| k2 == k && v2 == v))
         }
     }
 }
